@@ -4,7 +4,7 @@
 # github.com/coregx/coregex by /repo), then runs the check. Exit 0 = property held on everything explored,
 # 1 = VIOLATION, 2 = harness/build problem.
 set -u
-cd /verif || exit 2
+cd "$(dirname "$0")" || exit 2
 . ./env.sh
 id="$1"; tier="${2:-${VERIF_TIER:-quick}}"
 (
